@@ -9,6 +9,7 @@ import torch
 from agilerl.algorithms.ippo import IPPO
 
 from ..core import HarnessError
+from ..rand import seeded
 from . import c14_common as cm
 from . import c14_ppo as ppo
 
@@ -53,8 +54,7 @@ def build(group, kind, squash):
     if key not in _AGENTS:
         _, style, sids = GROUPS[group]
         nc = cm.net_config(kind)
-        with torch.random.fork_rng():
-            torch.manual_seed(0)
+        with seeded(0):
             if squash:
                 # IPPO(net_config={"squash_output": True}) forwards the key to ValueNetwork and cannot be constructed;
                 # the documented alternative is to hand in the networks
